@@ -56,6 +56,12 @@ pub mod rust_log_ref_finder
     {
         lazy_static! {
             static ref RUST_COMMENT_PATTERN: Regex = Regex::new(r"\/\/(.+)|\/\*(.+)\*\/").unwrap();
+
+            // An unsigned integer literal, optionally followed by layout (whitespace, comments):
+            // the grammar's key-value rule includes what separates the value from the following
+            // "," or ";" in the value's span.
+            static ref RUST_REF_VALUE_PATTERN: Regex =
+                Regex::new(r"(?s)^([0-9]+)(?:\s|/\*.*?\*/|//[^\n]*(?:\n|$))*$").unwrap();
         }
 
         let mut result = Vec::new();
@@ -239,11 +245,9 @@ pub mod rust_log_ref_finder
                                         ));
 
                                         ref_kind = LogRefKind::StructuredPreExisting;
-                                        reference = match span.as_str().parse::<u32>()
-                                        {
-                                            Err(_) => None,
-                                            Ok(val) => Some(val),
-                                        };
+                                        reference = RUST_REF_VALUE_PATTERN
+                                            .captures(span.as_str())
+                                            .and_then(|value| value[1].parse::<u32>().ok());
 
                                         break;
                                     },
